@@ -175,8 +175,10 @@ sync_flush(struct isal_zstream *stream)
 
                 if (stream->flush == FULL_FLUSH) {
                         /* Clear match history so there are no cross
-                         * block length distance pairs */
-                        state->has_hist = IGZIP_NO_HIST;
+                         * block length distance pairs. More input may be
+                         * compressed before isal_deflate() returns, so the
+                         * hash table is cleared here and now. */
+                        reset_match_history(stream);
                 }
         }
 }
@@ -1695,7 +1697,12 @@ isal_deflate(struct isal_zstream *stream)
                                 continue;
 
                         if (avail_in) {
-                                stream->flush = NO_FLUSH;
+                                /* A flush marker left pending by the previous
+                                 * call is still completed as the flush type
+                                 * asks (a full flush drops the history) */
+                                if (state->state != ZSTATE_SYNC_FLUSH &&
+                                    state->state != ZSTATE_TMP_SYNC_FLUSH)
+                                        stream->flush = NO_FLUSH;
                                 stream->end_of_stream = 0;
                         }
 
